@@ -62,6 +62,33 @@ func gsDriver(env *Env) *Driver {
 	return env.gs
 }
 
+// gsCheckSubmatch: the generic contract of FindStringSubmatch assumed by Props/GoRx.lean (`SubmatchSpec`: nil, or the string
+// and the texts between the group markers of THE marked word over the string), evaluated on the syntax tree translated from
+// the source, against what Go's regexp package really returns for the pattern of the source.
+func gsCheckSubmatch(env *Env, o *Outcome, varName, leanName string, ngroups int, s string, in map[string]any) {
+	d := gsDriver(env)
+	re := gsRegex(varName)
+	if d == nil || re == nil {
+		return
+	}
+	for _, r := range s {
+		if r > 127 {
+			return // the validation parser interprets the named classes for ASCII only
+		}
+	}
+	impl := "nil"
+	if m := re.FindStringSubmatch(s); m != nil {
+		var toks []string
+		for _, g := range m {
+			toks = append(toks, hx(g))
+		}
+		impl = strings.Join(toks, " ")
+	}
+	if model := d.Ask("rx.groups", leanName, fmt.Sprint(ngroups), hx(s)); model != impl {
+		addF(o, Finding{Kind: "K", What: "K.gosrc.submatch: FindStringSubmatch of " + varName + " differs from the generic contract (SubmatchSpec) evaluated on the pattern translated from the source", Impl: impl, Model: model, Input: in})
+	}
+}
+
 func gsCompare(env *Env, o *Outcome, what string, impl string, in map[string]any, parts ...string) {
 	d := gsDriver(env)
 	if d == nil {
@@ -80,6 +107,7 @@ func gsCheckTimeString(env *Env, s string, impl string, in map[string]any, o *Ou
 		return
 	}
 	gsCompare(env, o, "time", impl, in, append([]string{"gs.time", hx(s)}, groups...)...)
+	gsCheckSubmatch(env, o, "timePattern", "rx_klog_timePattern", 5, s, in)
 }
 
 func gsCheckDurString(env *Env, s string, impl string, in map[string]any, o *Outcome) {
@@ -89,6 +117,7 @@ func gsCheckDurString(env *Env, s string, impl string, in map[string]any, o *Out
 		return
 	}
 	gsCompare(env, o, "dur", impl, in, append([]string{"gs.dur", hx(s)}, groups...)...)
+	gsCheckSubmatch(env, o, "durationPattern", "rx_klog_durationPattern", 5, s, in)
 }
 
 func gsHMS(a int) (string, string, string) {
